@@ -66,7 +66,9 @@ pub fn judge_hop(p: &PoolView, t: &Transition, sw: &SwapEv, rep: &mut Reporter, 
             }
             InvariantVerdict::Dropped { deficit, band, within_band, within_8_bands } => {
                 let regime = low_amp_or_skewed(amp, before.len(), &before, decs);
-                let kf = if within_band {
+                let kf = if crate::ssx::collapse_regime(&before, decs) {
+                    Some("KF-C03-c")
+                } else if within_band {
                     Some("KF-C03-a")
                 } else if regime && (within_8_bands || deficit <= band * crate::ssx::kf_b_cap(before.len(), crate::ssx::skew(&before, decs))) {
                     Some("KF-C03-b")
@@ -241,6 +243,7 @@ impl C03 {
                     allowed += 4.0 * best;
                 }
                 let kf = if touches_ss && !dust.is_empty() && (gain as f64) <= allowed {
+                    // (deficits of hops in the fixed-point collapse regime are in `dust` too)
                     Some("KF-C03-a")
                 } else {
                     None
